@@ -18,8 +18,8 @@ ID = "C05"
 CASES = {"quick": 3000, "thorough": 30000}
 FLOOR = {"quick": 2200, "thorough": 22000}
 FLOOR_COUNTERS = {
-    "quick": {"fits_through_fit_transform": 500, "configured_not_by_constructor": 1500, "non_default_containers": 1000, "plumbing_pairs": 1000, "heldout_scores_judged": 900, "pcovr_equivalences": 90, "kpca_limits": 300, "heldout_size_gt_n": 150, "heldout_size_1": 100, "estimators_with_a_past": 300},
-    "thorough": {"fits_through_fit_transform": 5000, "configured_not_by_constructor": 15000, "non_default_containers": 10000, "plumbing_pairs": 14000, "heldout_scores_judged": 12000, "pcovr_equivalences": 600, "kpca_limits": 4000, "heldout_size_gt_n": 2000, "heldout_size_1": 1500, "estimators_with_a_past": 3500},
+    "quick": {"caller_buffers_overwritten_after_fit": 800, "fits_through_fit_transform": 500, "configured_not_by_constructor": 1500, "non_default_containers": 1000, "plumbing_pairs": 1000, "heldout_scores_judged": 900, "pcovr_equivalences": 90, "kpca_limits": 300, "heldout_size_gt_n": 150, "heldout_size_1": 100, "estimators_with_a_past": 300},
+    "thorough": {"caller_buffers_overwritten_after_fit": 9000, "fits_through_fit_transform": 5000, "configured_not_by_constructor": 15000, "non_default_containers": 10000, "plumbing_pairs": 14000, "heldout_scores_judged": 12000, "pcovr_equivalences": 600, "kpca_limits": 4000, "heldout_size_gt_n": 2000, "heldout_size_1": 1500, "estimators_with_a_past": 3500},
 }
 RULE = (
     "case = X, Y (1-D/2-D), kernel in {linear, rbf, poly, sigmoid(small gamma), cosine} with gamma/degree/coef0, center, "
@@ -78,6 +78,7 @@ def gen(rng, tier, index):
         "via": gens.pick(rng, ("fit", "fit", "fit_transform")),
         "xform": gens.pick(rng, forms.PRESENT),
         "carry": gens.pick(rng, forms.CARRY),
+        "clobber": bool(rng.random() < 0.5),
     }
 
 
@@ -185,6 +186,8 @@ def run(case, j):
         j.note("fits_through_fit_transform")
     else:
         j.lib("fit:named", est_a.fit, Xin, fit_Y, **fit_kw)
+    if case.get("clobber"):
+        forms.clobber(Xin if isinstance(Xin, np.ndarray) else None, j=j)  # the caller re-uses its training buffer
     est_a = forms.carry(est_a, case.get("carry", "same"), j)  # what is used afterwards may be a copy of what was fitted
 
     # ---- (v) any number of new samples: shapes
